@@ -55,9 +55,14 @@ LINE_TEMPL = {
 }
 
 
+_LINE_MARKET = None
+
+
 def ref_of(o, assume_status=None, price=None, complete=None):
     kind = {"LIMIT": "LIMIT", "LIMIT_ON_CLOSE": "LOC", "MARKET_ON_CLOSE": "MOC"}[o.order_type.ORDER_TYPE.name]
-    line = kind == "LIMIT" and o.order_type.price_ladder_definition == "LINE_RANGE"
+    # whether an order is a line bet is a fact about its MARKET (taken from the configuration), not about what
+    # the order object happens to carry
+    line = kind == "LIMIT" and (_LINE_MARKET if _LINE_MARKET is not None else o.order_type.price_ladder_definition == "LINE_RANGE")
     st = assume_status or L.sname(o.status)
     if kind == "LIMIT":
         frags = [(p, s) for _, p, s in o.simulated.matched]
@@ -71,7 +76,7 @@ def ref_of(o, assume_status=None, price=None, complete=None):
 def order_exposure(o, price=None):
     ot = o.order_type
     if ot.ORDER_TYPE.name == "LIMIT":
-        if ot.price_ladder_definition == "LINE_RANGE":
+        if _LINE_MARKET if _LINE_MARKET is not None else ot.price_ladder_definition == "LINE_RANGE":
             return F(str(ot.size))
         p = F(str(price if price is not None else ot.price))
         return F(str(ot.size)) if o.side == "BACK" else (p - 1) * F(str(ot.size))
@@ -308,7 +313,9 @@ def alphabet_for(line=False):
 
 
 def _run(args):
+    global _LINE_MARKET
     hist, cfg = args
+    _LINE_MARKET = bool(cfg.get("line"))
     lim = tuple(cfg["limits"])
     ticks, scripts = L.split_history(hist, 1)
     line = cfg.get("line")
